@@ -40,8 +40,50 @@ def c16_selector_schema_unnamed_object():
     return None if 'string' in types else f"state s='x' is valid, schema {sch} has no string alternative"
 
 
+def _sel(objects):
+    class P(param.Parameterized):
+        s = param.Selector(objects=objects)
+    return P.param.s
+
+
+def c18_remove_equal_not_identical():
+    """fe91b28: remove() searched the list with == but filtered the names with `is`"""
+    p = _sel({'a': int('1000'), 'b': int('2000')})
+    p.objects.remove(int('1000'))
+    return None if p.names == {'b': 2000} else f"removed 1000 (an equal, not identical int): list {list(p.objects)}, names {p.names}"
+
+
+def c18_extend_iterator():
+    """d598c2c: extend(iterator) consumed the iterator for the proxy and left _objects unchanged"""
+    p = _sel([1, 2])
+    p.objects.extend(iter([3, 4]))
+    return None if list(p.objects) == [1, 2, 3, 4] else f"extend(iter([3, 4])): a fresh objects view is {list(p.objects)}"
+
+
+def c18_update_mapping():
+    """d028488: update() only treated dict as a mapping; any other Mapping was iterated as pairs (its keys)"""
+    import collections
+    p = _sel({'a': 1})
+    try:
+        p.objects.update(collections.UserDict({'xy': 5}))
+    except Exception as e:
+        return f"update(UserDict({{'xy': 5}})) raised {type(e).__name__}: {e}"
+    return None if p.names == {'a': 1, 'xy': 5} else f"update(UserDict({{'xy': 5}})) -> names {p.names}"
+
+
+def c18_pop_default():
+    """703bb42: pop(missing_key, default) removed the *default* from the objects (or raised ValueError)"""
+    p = _sel({'a': None, 'b': 2})
+    try:
+        r = p.objects.pop('nokey', None)
+    except Exception as e:
+        return f"pop('nokey', None) raised {type(e).__name__}"
+    return None if (r is None and list(p.objects) == [None, 2]) else f"pop('nokey', None) -> {r!r}, objects now {list(p.objects)}, names {p.names}"
+
+
 if __name__ == '__main__':
-    for f in [c03_slot_watcher_list_mutated, c03_slot_watcher_registered_in_callback, c16_selector_schema_unnamed_object]:
+    for f in [c03_slot_watcher_list_mutated, c03_slot_watcher_registered_in_callback, c16_selector_schema_unnamed_object,
+              c18_remove_equal_not_identical, c18_extend_iterator, c18_update_mapping, c18_pop_default]:
         try: r = f()
         except Exception as e: r = f'demo crashed: {type(e).__name__}: {e}'
         print(f'{f.__name__:44s}', 'DEFECT: ' + r if r else 'ok')
